@@ -10,3 +10,14 @@ package modconfig
 //@   ensures result1 == nil && len(args) <= 1 ==> coherent(result0.Code, result0.EnhancedCode)
 //@   ensures result1 == nil ==> result0 != nil && (result0.Code/100 == 4 || result0.Code/100 == 5)
 //@ exempt modconfig.ParseRejectDirective/literal:SMTPError#0 : with 2+ arguments both codes are operator-supplied; the computed cases are the function's own ensures clauses
+
+// ---- C06: action mapping ----
+// A result without a reason is returned unchanged; otherwise the configured action can only add flags; 'ignore'
+// (neither flag configured) changes neither flag.
+//@ func (FailAction).Apply
+//@   prop C06
+//@   ensures originalRes.Reason == nil ==> result == originalRes
+//@   ensures originalRes.Reason != nil ==> result.Quarantine == (cfa.Quarantine || originalRes.Quarantine) && result.Reject == (cfa.Reject || originalRes.Reject)
+//@   ensures originalRes.Reason != nil ==> result.Reason != nil
+//@   ensures originalRes.Reason != nil && cfa.ReasonOverride == nil ==> result.Reason == originalRes.Reason
+//@   ensures result.AuthResult == originalRes.AuthResult && result.Header == originalRes.Header
